@@ -39,11 +39,14 @@ pub struct GCase {
     /// "diff" = C08 differential against the reversed graph
     #[serde(default)]
     pub mode: String,
+    /// how the graph was reached (see `build_world`)
+    #[serde(default)]
+    pub churn: u8,
 }
 
 impl GCase {
     pub fn program(&self, flavour: &str) -> String {
-        let mut s = format!("{}: nodes 0..{} values {:?}; ", flavour, self.n, self.vals);
+        let mut s = format!("{}: nodes 0..{} values {:?}; {}", flavour, self.n, self.vals, churn_text(self.churn));
         for (i, (u, v)) in self.conns.iter().enumerate() {
             s += &format!("n{}.connect(&n{}, {}); ", u, v, i + 1);
         }
@@ -160,12 +163,95 @@ pub fn shapes_iso(n: usize, max_l: usize) -> Vec<Vec<(K, K)>> {
     out.into_iter().map(|x| x.0).collect()
 }
 
-pub fn build_world<F: Fl>(vals: &[i8], conns: &[(K, K)]) -> World<F> {
-    let w = World::<F>::with_vals(vals);
-    for (i, (u, v)) in conns.iter().enumerate() {
-        F::connect(&w.nodes[*u as usize], &w.nodes[*v as usize], (i + 1) as E);
+thread_local! {
+    /// How `build_world` reaches the shape: 0 = plain connects; 1..=3 = through a
+    /// history with removals (see `build_world`).
+    pub static CHURN: std::cell::Cell<u8> = const { std::cell::Cell::new(0) };
+}
+pub fn set_churn(c: u8) {
+    CHURN.with(|x| x.set(c));
+}
+pub fn churn() -> u8 {
+    CHURN.with(|x| x.get())
+}
+pub fn churn_text(c: u8) -> &'static str {
+    match c {
+        1 => "after connecting every ordered pair (value 99) and disconnecting all of them again, ",
+        2 => "after connecting every ordered pair (value 99) and isolating every node, ",
+        3 => "with a temporary edge between an otherwise unconnected pair connected before and disconnected after every listed connect, ",
+        _ => "",
     }
-    w
+}
+
+/// The graph of a connect history. With churn mode 0 it is built by exactly
+/// those connects. The other modes reach the *same observable adjacency* from a
+/// non-initial state (differential oracle: equal adjacency must mean equal
+/// behaviour, whatever the history): 1 = a complete mesh incl. self-loops is
+/// connected and disconnected edge by edge first; 2 = the mesh is torn down with
+/// isolate; 3 = a temporary edge on a pair the shape does not use is connected
+/// before and disconnected after every connect of the history. A churned build
+/// whose adjacency differs from the plain build is C03's business, not the
+/// caller's: the plain build is returned (callers count it via `churn_fell_back`).
+pub fn build_world<F: Fl>(vals: &[i8], conns: &[(K, K)]) -> World<F> {
+    let plain = || {
+        let w = World::<F>::with_vals(vals);
+        for (i, (u, v)) in conns.iter().enumerate() {
+            F::connect(&w.nodes[*u as usize], &w.nodes[*v as usize], (i + 1) as E);
+        }
+        w
+    };
+    let mode = churn();
+    if mode == 0 {
+        return plain();
+    }
+    let n = vals.len();
+    let w = World::<F>::with_vals(vals);
+    let built = guarded(|| {
+        if mode == 1 || mode == 2 {
+            for u in 0..n {
+                for v in 0..n {
+                    F::connect(&w.nodes[u], &w.nodes[v], 99);
+                }
+            }
+            if mode == 1 {
+                for u in (0..n).rev() {
+                    for v in 0..n {
+                        while F::disconnect(&w.nodes[u], v as K).is_ok() {}
+                    }
+                }
+            } else {
+                for u in 0..n {
+                    F::isolate(&w.nodes[u]);
+                }
+            }
+        }
+        let free: Option<(usize, usize)> = if mode == 3 {
+            let used = |a: usize, b: usize| conns.iter().any(|(u, v)| (*u as usize, *v as usize) == (a, b) || (!F::DIRECTED && (*v as usize, *u as usize) == (a, b)));
+            (0..n).flat_map(|a| (0..n).map(move |b| (a, b))).filter(|(a, b)| !used(*a, *b)).last()
+        } else {
+            None
+        };
+        for (i, (u, v)) in conns.iter().enumerate() {
+            if let Some((a, b)) = free {
+                F::connect(&w.nodes[a], &w.nodes[b], 100);
+            }
+            F::connect(&w.nodes[*u as usize], &w.nodes[*v as usize], (i + 1) as E);
+            if let Some((a, b)) = free {
+                let _ = F::disconnect(&w.nodes[a], b as K);
+            }
+        }
+    });
+    let p = plain();
+    let same = built.is_ok() && matches!((w.observe(), p.observe()), (Ok(a), Ok(b)) if a == b);
+    if same {
+        w
+    } else {
+        CHURN_FELL_BACK.with(|c| c.set(c.get() + 1));
+        p
+    }
+}
+thread_local! {
+    pub static CHURN_FELL_BACK: std::cell::Cell<u64> = const { std::cell::Cell::new(0) };
 }
 
 pub type Trace = Vec<(Arc3, bool)>;
@@ -447,12 +533,15 @@ pub fn check_case<F: Fl>(prop: &str, w: &World<F>, m: &GModel, c: &GCase, dfs: &
         let second = match sec {
             "nodes" => ResK::Nodes,
             "edges" => ResK::Edges,
+            "cycle" => ResK::Cycle,
+            "search" => ResK::Search,
             _ => ResK::Path,
         };
         let both = exec_reuse::<F>(w, c.root, &c.cfg, second, &c.reject);
         let mut cfg2 = c.cfg;
         cfg2.res = second;
-        let fresh1 = exec::<F>(w, c.root, &c.cfg, &c.reject);
+        // (for the searches the first use is also a plain configuration of the sweep: not repeated)
+        let fresh1 = if c.cfg.kind.is_order() { exec::<F>(w, c.root, &c.cfg, &c.reject) } else { both.as_ref().map(|b| b.0.clone()).map_err(|f| f.clone()) };
         let fresh2 = exec::<F>(w, c.root, &cfg2, &c.reject);
         return match (both, fresh1, fresh2) {
             (Ok((u1, u2)), Ok(f1), Ok(f2)) => {
@@ -542,6 +631,9 @@ pub struct GParams {
     /// nodes plus every single extra edge) instead of the small shapes
     #[serde(default)]
     pub large: usize,
+    /// reach every shape through a history with removals (see `build_world`)
+    #[serde(default)]
+    pub churn: u8,
 }
 
 /// The large structured families: (family name, connect history).
@@ -676,7 +768,7 @@ pub fn large_sweep<F: Fl>(job: &Job, p: &GParams, out: &mut Out) {
                         continue;
                     }
                     crate::progress::tick();
-                    let c = GCase { n: *n, conns: conns.clone(), vals: vals.clone(), root, cfg, reject, mode: mode.to_string() };
+                    let c = GCase { n: *n, conns: conns.clone(), vals: vals.clone(), root, cfg, reject, mode: mode.to_string(), churn: churn() };
                     out.stats.inc("evaluations");
                     match check_case::<F>(prop, &w, &m, &c, &mut dfs, wt.as_ref()) {
                         Ok((sres, _)) => {
@@ -862,6 +954,29 @@ pub fn configs(prop: &str, directed: bool, n: usize, root: K, arcs: &[Arc3], arc
         }
         v.extend(extra);
     }
+    if matches!(prop, "C04" | "C05" | "C06" | "C09") {
+        // a search object that has already answered one search_path (possibly
+        // ending early at its target) must answer the next call like a fresh one:
+        // search_path, then search_path / search / search_cycle on the same object
+        let mut extra = Vec::new();
+        let mut seen: Vec<(Cfg, Vec<Arc3>)> = Vec::new();
+        for (cfg, reject, mode) in &v {
+            if !mode.is_empty() || cfg.kind.is_order() || !reject.is_empty() || cfg.meth == Meth::Filter {
+                continue;
+            }
+            let mut first = *cfg;
+            first.res = ResK::Path;
+            if seen.iter().any(|(c, r)| *c == first && r == reject) {
+                continue;
+            }
+            seen.push((first, reject.clone()));
+            let seconds: &[&'static str] = if prop == "C09" { &["reuse:cycle"] } else { &["reuse:path", "reuse:search"] };
+            for sec in seconds {
+                extra.push((first, reject.clone(), *sec));
+            }
+        }
+        v.extend(extra);
+    }
     v
 }
 
@@ -932,8 +1047,13 @@ pub fn sweep<F: Fl>(job: &Job, out: &mut Out) {
         return cmp_sweep::<F>(job, out);
     }
     let p: GParams = serde_json::from_value(job.params.clone()).expect("gsweep params");
+    set_churn(p.churn);
+    CHURN_FELL_BACK.with(|c| c.set(0));
     if p.large > 0 {
         return large_sweep::<F>(job, &p, out);
+    }
+    if p.churn > 0 {
+        out.stats.inc("churn_jobs");
     }
     let prop = job.property.as_str();
     let all_shapes = if p.iso { shapes_iso(p.n, p.max_l) } else { shapes::<F>(p.n, p.max_l) };
@@ -974,7 +1094,7 @@ pub fn sweep<F: Fl>(job: &Job, out: &mut Out) {
                         continue;
                     }
                     crate::progress::tick();
-                    let c = GCase { n: p.n, conns: conns.clone(), vals: vals.clone(), root, cfg, reject, mode: mode.to_string() };
+                    let c = GCase { n: p.n, conns: conns.clone(), vals: vals.clone(), root, cfg, reject, mode: mode.to_string(), churn: churn() };
                     out.stats.inc("evaluations");
                     match check_case::<F>(prop, &w, &m, &c, &mut dfs, wt.as_ref()) {
                         Ok((sres, tlen)) => {
@@ -1012,6 +1132,9 @@ pub fn sweep<F: Fl>(job: &Job, out: &mut Out) {
         }
     }
     out.stats.max("dfs_order_cache_entries", 0);
+    if p.churn > 0 {
+        out.stats.add("churn_builds_fell_back_to_plain", CHURN_FELL_BACK.with(|c| c.get()));
+    }
 }
 
 pub fn replay<F: Fl>(prop: &str, case: &Value) -> Vec<Violation> {
@@ -1039,7 +1162,7 @@ pub fn replay<F: Fl>(prop: &str, case: &Value) -> Vec<Violation> {
         for root in 0..n as K {
             for (cfg, reject, mode) in configs(prop, F::DIRECTED, n, root, &arcs, &arcs_t) {
                 crate::progress::tick();
-                let c = GCase { n, conns: conns.clone(), vals: vals.clone(), root, cfg, reject, mode: mode.to_string() };
+                let c = GCase { n, conns: conns.clone(), vals: vals.clone(), root, cfg, reject, mode: mode.to_string(), churn: churn() };
                 crate::progress::set_case(|| c.program(F::NAME));
                 if let Err((class, what)) = check_case::<F>(prop, &w, &m, &c, &mut dfs, Some(&wt)) {
                     out.report(Violation { property: prop.into(), engine: "gsweep".into(), flavour: F::NAME.into(), class, what, case: case.clone(), order: 0 });
@@ -1049,6 +1172,7 @@ pub fn replay<F: Fl>(prop: &str, case: &Value) -> Vec<Violation> {
         return out.viols.into_values().collect();
     }
     let c: GCase = serde_json::from_value(case["case"].clone()).expect("gsweep case");
+    set_churn(c.churn);
     let m = GModel::new(c.n, F::DIRECTED, &c.conns, &c.vals);
     let w = build_world::<F>(&c.vals, &c.conns);
     let conns_t: Vec<(K, K)> = c.conns.iter().map(|(u, v)| (*v, *u)).collect();
